@@ -230,6 +230,8 @@ def main(argv=None):
                 canary_fail.append(f"{r['label']}: canary '{n}' was never refuted")
         for f in r['failures']:
             failures.append((r, f))
+        if r.get('stats', {}).get('refuted', 0) > 0 and not r['failures'] and not r['error']:
+            errors.append(f"{r['label']}: {r['stats']['refuted']} refuted obligation(s) without a counterexample record")
         if r.get('stats', {}).get('obligations', 0) == 0 and not r['error'] and not getattr(mod, 'ALLOW_EMPTY', False):
             errors.append(f"{r['label']}: no obligation was reached (vacuous configuration)")
     if not samples:
